@@ -11,7 +11,7 @@ THEOREMS = ['C13_sum_of_threads', 'C13_interleave_invariant', 'C13_unenabled_thr
             'C13_reported_interleave_invariant', 'C13_nonvacuous', 'C13_model_is_generated_core',
             'C13_operations_are_thread_local', 'C13_idle_thread_untouched', 'C13_disable_effect']
 LEVEL = 'proof'
-FEATURES_T = [{'gen'}, set(), {'rec'}, {'gen', 'rec'}]
+FEATURES_T = [{'gen'}, set(), {'rec'}, {'gen', 'rec'}, {'rawthreads'}, {'rawthreads', 'gen'}]
 FEATURES_M = [{'monitor'}, {'baton'}, {'baton', 'gen'}, {'baton', 'rec'}, {'monitor', 'gen'}, {'baton', 'monitor'}]
 FEATURES_I = [{'gen'}, {'gen', 'co'}, {'co'}, {'gen', 'rec'}, {'gen', 'straddle'}, {'gen', 'straddle', 'rec'}]
 FEATURES_C = [{'agen'}, {'agen', 'co', 'cotasks'}, {'agen', 'rec'}, {'co', 'cotasks'}, {'co', 'cotasks', 'gen'}, {'co', 'cotasks', 'rec'}, {'co', 'cotasks', 'asyncio'}, {'co', 'asyncio', 'cotasks', 'rec'}]
